@@ -8,6 +8,7 @@ random write patterns: the repository model (run in Coq on the member's insert /
 sequence) predicts which late messages can still be decrypted; (c) late messages whose
 sender's leaf was vacated or reused are compared with the late-sender decision function."""
 import json
+import re
 import os
 from concurrent.futures import ThreadPoolExecutor
 
@@ -47,6 +48,21 @@ def gen_write_seq(rng, contiguous):
         snap += 1
         ws.append((snap, ins, upd))
     return ws
+
+
+def _default_retention():
+    """DEFAULT_EPOCH_RETENTION_LIMIT of the two providers, read from the source (what `new()` uses)."""
+    out = {}
+    for st, path in (("mem", "/repo/mls-rs/src/storage_provider/in_memory/group_state_storage.rs"), ("sqlite", "/repo/mls-rs-provider-sqlite/src/group_state.rs")):
+        try:
+            m = re.search(r"const DEFAULT_EPOCH_RETENTION_LIMIT\s*:\s*\w+\s*=\s*(\d+)", open(path).read())
+            out[st] = int(m.group(1)) if m else 3
+        except OSError:
+            out[st] = 3
+    return out
+
+
+DEFAULT_RETENTION = _default_retention()
 
 
 def late_script(rng, name, storage, R, n_epochs):
@@ -233,7 +249,14 @@ def main(run, args):
     for i in range(16 if quick else 120):
         R = rng.choice([1, 2, 3, 5])
         st = rng.choice(["mem", "sqlite"])
-        s, model, last = late_script(rng, f"c19-late-{i}", st, R, 3 + rng.below(6))
+        cons = st
+        if i % 4 == 3:
+            # storage that was never configured (Default::default(), new(), the SQLite engine's own): the window is
+            # the documented default of the provider, the same for every way of constructing it
+            cons = ["mem_default", "mem_new", "sqlite_default"][(i // 4) % 3]
+            st = "sqlite" if cons.startswith("sqlite") else "mem"
+            R = DEFAULT_RETENTION[st]
+        s, model, last = late_script(rng, f"c19-late-{i}", cons, R, 3 + rng.below(6))
         scripts.append(s)
         models.append((st, R, model))
     variants = ["vacated", "reused", "control", "blank_left", "blank_left_vacated"] * (2 if quick else 8)
